@@ -16,6 +16,7 @@ import (
 	"time"
 
 	kv "github.com/XiXi-2024/xixi-kv"
+	"github.com/XiXi-2024/xixi-kv/fio"
 	"verifharness/h"
 )
 
@@ -31,8 +32,14 @@ func init() {
 }
 
 // ---- child: obeys "open <slot> <dir> [<unixnano>]", "close <slot>", "quit"
+type pclose struct {
+	release chan struct{}
+	done    chan string
+}
+
 func lockChild(en *Env) {
 	slots := map[int]*kv.DB{}
+	parkedClose := map[int]*pclose{}
 	in := bufio.NewReader(os.Stdin)
 	out := bufio.NewWriter(os.Stdout)
 	for {
@@ -100,6 +107,46 @@ func lockChild(en *Env) {
 				results[i] = strings.ReplaceAll(results[i], " ", "_")
 			}
 			fmt.Fprintf(out, "res %s\n", strings.Join(results, " "))
+		case "closepark":
+			// closepark <slot>: Close runs on its own goroutine and is parked (blocking I/O hook) at the entry of the
+			// close of its first data file, i.e. in the middle of Close; answers "parked", or the result if Close
+			// returned without closing a data file
+			slot, _ := strconv.Atoi(f[1])
+			db := slots[slot]
+			if db == nil {
+				fmt.Fprintf(out, "res notopen\n")
+				break
+			}
+			parked, release, done := make(chan struct{}), make(chan struct{}), make(chan string, 1)
+			var once sync.Once
+			fio.VerifIO = func(phase int, kind, name string, n int64) {
+				if phase == 0 && kind == "close" && strings.HasSuffix(name, ".data") {
+					once.Do(func() { close(parked); <-release })
+				}
+			}
+			go func() { done <- h.Guard(h.CallTimeout, func() error { return db.Close() }) }()
+			select {
+			case <-parked:
+				parkedClose[slot] = &pclose{release, done}
+				fmt.Fprintf(out, "res parked\n")
+			case r := <-done:
+				fio.VerifIO = nil
+				delete(slots, slot)
+				fmt.Fprintf(out, "res done:%s\n", r)
+			}
+		case "closego":
+			slot, _ := strconv.Atoi(f[1])
+			pc := parkedClose[slot]
+			if pc == nil {
+				fmt.Fprintf(out, "res notparked\n")
+				break
+			}
+			close(pc.release)
+			r := <-pc.done
+			fio.VerifIO = nil
+			delete(parkedClose, slot)
+			delete(slots, slot)
+			fmt.Fprintf(out, "res %s\n", r)
 		case "close":
 			slot, _ := strconv.Atoi(f[1])
 			name := "notopen"
@@ -264,6 +311,33 @@ func profDirLock(en *Env) {
 					open[o] = true
 				}
 				attempts++
+			case x < 62 && open[o]:
+				// an Open from another process while this opener is in the middle of its Close (parked at the close
+				// of its first data file): the database is open until Close returns
+				kids[p].send("closepark %d", g)
+				res := kids[p].recv()
+				if res != "parked" {
+					en.T.Emit(h.Ev{"ev": "lk", "o": o, "act": "close", "res": strings.TrimPrefix(res, "done:"), "same": true})
+					delete(open, o)
+					break
+				}
+				en.T.Emit(h.Ev{"ev": "lk", "o": o, "act": "closebegin", "res": "parked", "same": true})
+				p2 := (p + 1 + r.Intn(len(kids)-1)) % len(kids)
+				o2 := (p2+1)*10 + g
+				if !open[o2] {
+					before := fingerprint(dir)
+					kids[p2].send("open %d %s", g, dir)
+					res2 := kids[p2].recv()
+					en.T.Emit(h.Ev{"ev": "lk", "o": o2, "act": "open", "res": res2, "same": before == fingerprint(dir)})
+					attempts++
+					if res2 == "ok" {
+						open[o2] = true
+					}
+				}
+				kids[p].send("closego %d", g)
+				res = kids[p].recv()
+				en.T.Emit(h.Ev{"ev": "lk", "o": o, "act": "close", "res": res, "same": true})
+				delete(open, o)
 			case x < 75 && open[o]:
 				kids[p].send("close %d", g)
 				res := kids[p].recv()
